@@ -5,7 +5,7 @@ from props_common import HARNESS_TB, EXTRACT_TB
 from prop_c03 import run_loggerfacts, KINDS
 
 FIELDS = ("single_write write_under_lock clone_shares_mu buf_from_pool free_deferred handle_readonly "
-          "reset_before_put refuses_oversized pool_new_empty gate_first")
+          "reset_before_put refuses_oversized pool_new_empty gate_first level_stored_unchanged enabled_is_ge")
 
 
 def c02_static(tier):
@@ -45,6 +45,10 @@ def c02_casesv(lines):
     rows = []
     for l in lines:
         f = l.split()
+        if f[0] == "T":
+            z = lambda x: "(%s)%%Z" % x
+            rows.append("(let p := check_threshold %s %s %s %s in fst p && snd p)" % (z(f[2]), z(f[3]), f[6], "true" if f[7] == "1" else "false"))
+            continue
         ps, ws = [], []
         for tok in f[5:]:
             p = tok.split(":")
@@ -53,7 +57,7 @@ def c02_casesv(lines):
             else:
                 ws.append("mkWrote %s%%N %s" % (p[1], "true" if p[2] == "1" else "false"))
         rows.append("verdict_ok (check_case %s [%s] [%s] %s %s)" % (f[2], "; ".join(ps), "; ".join(ws), f[3], f[4]))
-    return ("From Coq Require Import List NArith Bool.\nImport ListNotations.\nFrom Glb Require Import Check.C02.\n"
+    return ("From Coq Require Import List NArith ZArith Bool.\nImport ListNotations.\nFrom Glb Require Import Check.C02.\n"
             "Definition verdicts : list bool := [\n  " + ";\n  ".join(rows) + "].\nEval vm_compute in verdicts.\n")
 
 
@@ -64,7 +68,7 @@ CFG = dict(
     ocaml="c02",
     race=True,
     casesv=c02_casesv,
-    case_tags=("E",),
+    case_tags=("E", "T"),
     static=[c02_static],
     coq_sample={"quick": 60, "thorough": 150},
     harness_timeout={"quick": 600, "thorough": 7200},
